@@ -3139,6 +3139,10 @@ func cvtFloat(v Value, t Type) Value {
 		// Don't do any conversion if both types have underlying type float32.
 		// This avoids converting to float64 and back, which will
 		// convert a signaling NaN to a quiet NaN. See issue 36400.
+		if v.flag&flagIndir != 0 {
+			// v.ptr addresses the value; makeFloat32 wants the bits themselves
+			return makeFloat32(v.flag.ro(), unsafe.Pointer(uintptr(*(*uint32)(v.ptr))), t)
+		}
 		return makeFloat32(v.flag.ro(), v.ptr, t)
 	}
 	return makeFloat(v.flag.ro(), v.Float(), t)
